@@ -487,17 +487,28 @@ struct B {
 	~B() { for (size_t i = 0; i != p.size(); ++i) delete p[i]; for (size_t k = 0; k != cont.size(); ++k) dropCont((ll)k); }
 };
 
+// LeakSanitizer's recoverable check reports a leaked block again at every later check: after the first report
+// the process cannot attribute leaks any more and prints 2 ("not judged") for the remaining cases of the batch.
+static bool tainted = false;
+static int leakFlag() {
+	if (tainted) return 2;
+	if (__lsan_do_recoverable_leak_check() != 0) { tainted = true; return 1; }
+	return 0;
+}
 int main() {
 	Case c; Obs o;
 	while (readCase(c)) {
 		reg.clear(); odead.clear(); integrity = 0;
 		ll part = c.next();
-		bool ran = false;
 		try {
 			if (part == 0 && c.v.size() >= 3) {
-				A a(o);
-				a.run(c);
-				if (a.vm) { a.finish(); ran = true; }
+				bool ran = false;
+				{
+					A a(o);
+					a.run(c);
+					if (a.vm) { a.finish(); ran = true; }
+				}
+				if (ran) o.add(leakFlag());
 			}
 			else if (part == 1 && c.v.size() >= 3) {
 				bool ok;
@@ -507,16 +518,16 @@ int main() {
 					if (ok) b.finish(false);
 				}
 				if (ok) {
-					bool leak = __lsan_do_recoverable_leak_check() != 0;
-					for (size_t k = 0; k != odead.size(); ++k) leak = leak || odead[k] == 0;
-					o.add(leak ? 1 : 0);
+					bool dead = true;
+					for (size_t k = 0; k != odead.size(); ++k) dead = dead && odead[k] != 0;
+					int lk = leakFlag();
+					o.add(!dead ? 1 : lk);
 				}
 			}
 			else { o.add(-999); }
 		}
 		catch (const std::exception& e) { o.add(-998); }
 		catch (...) { o.add(-997); }
-		if (ran && part == 0) o.add(__lsan_do_recoverable_leak_check() ? 1 : 0);
 		o.flush();
 	}
 	return 0;
